@@ -29,7 +29,7 @@ impl Interpreter {
 
     pub(crate) fn match_script_bit(&mut self, bit: &ScriptBit) -> Result<State, InterpreterError> {
         Ok(match bit {
-            ScriptBit::OpCode(o) => match Interpreter::match_opcode(self.script_index, o, &mut self.state.clone(), self.tx_script.clone()) {
+            ScriptBit::OpCode(o) => match Interpreter::match_opcode(self.script_position(self.script_index), o, &mut self.state.clone(), self.tx_script.clone()) {
                 Ok(mut next_state) => {
                     next_state.executed_opcodes.push(*o);
                     if *o == OpCodes::OP_RETURN {
@@ -65,13 +65,17 @@ impl Interpreter {
                 };
                 self.state.executed_opcodes.push(*code);
 
-                if predicate {
-                    let _removed: Vec<ScriptBit> = self.script_bits.splice(self.script_index + 1..self.script_index + 1, pass.clone()).collect();
-                    // println!("Removed items: {:?}", removed);
-                } else {
-                    let _removed: Vec<ScriptBit> = self.script_bits.splice(self.script_index + 1..self.script_index + 1, fail.clone().unwrap_or_default()).collect();
-                    // println!("Removed items: {:?}", removed);
+                // The taken branch is spliced in behind the conditional; its elements keep the positions they have
+                // in the script as written, which is what OP_CODESEPARATOR records.
+                let position = self.script_position(self.script_index);
+                let (branch, start) = match predicate {
+                    true => (pass.clone(), position + 1),
+                    false => (fail.clone().unwrap_or_default(), position + 2 + Interpreter::written_len(pass)),
+                };
+                if self.script_positions.len() == self.script_bits.len() {
+                    self.script_positions.splice(self.script_index + 1..self.script_index + 1, Interpreter::written_positions(&branch, start));
                 }
+                self.script_bits.splice(self.script_index + 1..self.script_index + 1, branch);
 
                 self.state.clone()
             }
@@ -723,10 +727,13 @@ fn calculate_sighash_preimage(txscript: &mut TxScript, sighash: SigHash, codesep
         _ => return Err(InterpreterError::InvalidStackOperation("could not get TxIn at the provided index")),
     };
 
-    let unlock_script_len = txin.get_unlocking_script().to_script_bits().len();
+    // The offset counts opcodes and pushes of the script as written, so the subscript is cut from the locking
+    // script with its conditionals written out; it may begin inside a conditional.
+    let unlock_script_len = Interpreter::written_len(&txin.get_unlocking_script().to_script_bits());
     let script_offset = codeseparator_offset.saturating_sub(unlock_script_len);
     let unsigned_script = match txin.get_locking_script() {
-        Some(v) => Script::from_script_bits(v.to_script_bits()[script_offset..].to_vec()),
+        Some(v) if script_offset == 0 => v,
+        Some(v) => Script::from_script_bits(Interpreter::written_out(&v.to_script_bits()).get(script_offset..).unwrap_or_default().to_vec()),
         None => return Err(InterpreterError::InvalidStackOperation("TxIn at given index does not have locking script provided")),
     };
     println!("Unsigned script: {}", unsigned_script.to_asm_string());
